@@ -9,8 +9,12 @@ package stacks
 // shared by the C01 driver.  Not part of /repo.
 
 import (
+	"context"
 	"errors"
 	"fmt"
+	"io"
+	"net"
+	"os"
 
 	"github.com/google/cel-go/cel"
 
@@ -21,7 +25,7 @@ import (
 )
 
 type Node struct {
-	K    string `json:"k"`              // s r e f w j c
+	K    string `json:"k"`              // s r e f w j c x (x = a standard library error value, N selects it)
 	Kind string `json:"kind,omitempty"` // sentinel kind
 	N    int    `json:"n,omitempty"`    // foreign flavour+id / other sentinel id / wrap+join flavour
 	Code int    `json:"code,omitempty"`
@@ -88,9 +92,24 @@ func RealEvalError() error {
 	return evalErr
 }
 
+type netTimeout struct{}
+
+func (netTimeout) Error() string   { return "i/o timeout" }
+func (netTimeout) Timeout() bool   { return true }
+func (netTimeout) Temporary() bool { return true }
+
+// StdErrors are error values of the standard library that real mechanisms meet (a client that went
+// away, deadlines, broken connections).  The model sees them as foreign leaves `Foreign (100+i)`.
+var StdErrors = []error{ //nolint:gochecknoglobals
+	context.Canceled, context.DeadlineExceeded, io.EOF, io.ErrUnexpectedEOF, os.ErrDeadlineExceeded,
+	&net.OpError{Op: "dial", Net: "tcp", Err: netTimeout{}}, net.ErrClosed, os.ErrNotExist,
+}
+
 // Build turns a description into a real error value.
 func Build(n Node) error {
 	switch n.K {
+	case "x":
+		return StdErrors[n.N%len(StdErrors)]
 	case "s":
 		if n.Kind == "other" {
 			return OtherSentinels[n.N%len(OtherSentinels)]
@@ -183,6 +202,8 @@ func CoqErr(n Node) string {
 		return "EvalErr"
 	case "f":
 		return vf.CoqApp("Foreign", vf.CoqNat(n.N))
+	case "x":
+		return vf.CoqApp("Foreign", vf.CoqNat(100+n.N%len(StdErrors)))
 	case "w":
 		return vf.CoqApp("WrapW", CoqErr(n.Sub[0]))
 	case "j":
@@ -209,6 +230,8 @@ func Kinds(n Node, acc map[string]bool) {
 		acc["eval"] = true
 	case "f":
 		acc["foreign"] = true
+	case "x":
+		acc["stdlib"] = true
 	}
 
 	for _, s := range n.Sub {
@@ -226,6 +249,7 @@ type GenOpts struct {
 	Other0   int  // percentage of leaves that are `sOther 0`
 	ArgBoost int  // percentage of leaves that are the argument sentinel
 	EvalPct  int  // percentage of leaves that are EvalError
+	StdPct   int  // percentage of leaves that are standard library errors (context.Canceled, io.EOF, ...)
 }
 
 func GenLeaf(r *vf.Rand, o GenOpts) Node {
@@ -239,6 +263,10 @@ func GenLeaf(r *vf.Rand, o GenOpts) Node {
 
 	if r.Chance(o.EvalPct) {
 		return Node{K: "e"}
+	}
+
+	if r.Chance(o.StdPct) {
+		return Node{K: "x", N: r.Intn(len(StdErrors))}
 	}
 
 	switch x := r.Intn(100); {
